@@ -6,7 +6,7 @@ import os
 from vlib import core, runner
 from .base import Check
 
-EVENT_OPS = ("B ", "K ", "U ", "T ", "X ", "N ", "D ")
+EVENT_OPS = ("B ", "K ", "U ", "T ", "X ", "N ", "D ", "F ", "R ", "E ")
 
 # Harmless rewrites of the anchored code on which the full flow of this check was run and stays silent (built as mutated object
 # files in scratch and linked into a scratch harness; the patches are kept as documentation in corpus/C10/negative_controls/).
@@ -24,6 +24,7 @@ NEGATIVE_CONTROLS = [
     "takes which timer ran as an oracle input)",
     "nc8 notification.cpp ExecuteNotificationHelper: OnNotificationSentToUser emitted before the command runs (the harness waits for both)",
     "nc9 apilistener.cpp OnConfigLoaded: the ApiListener object itself becomes HARunEverywhere (infrastructure objects are not observed)",
+    "nc10 checkercomponent.cpp ExecuteCheckHelper: erase-by-key with its return value instead of find + erase(iterator)",
 ]
 # Compared between model and implementation: paused, #Pause(), #Resume(), #command executions per observed object, Utility::SDBM.
 # Deliberately NOT compared: number of OnPausedChanged notifications, length of the notification stash, log text, timer periods
@@ -225,7 +226,7 @@ class C10(Check):
 
     def replay(self, path, harness, driver):
         data = json.load(open(path))
-        lines = [l for l in data.get("case", []) if l[:2] in ("C ", "O ", "H ", "B ", "K ", "U ", "T ", "X ", "N ", "D ")]
+        lines = [l for l in data.get("case", []) if l[:2] in ("C ", "O ", "H ", "B ", "K ", "U ", "T ", "X ", "N ", "D ", "F ", "R ", "E ")]
         f = self.work("replay.ops")
         with open(f, "w") as fh:
             fh.write("\n".join(runner.strip_obs(l) for l in lines) + "\n")
